@@ -2,6 +2,10 @@ NOTE_COMMON = ("trusts gqlparser v2.5.1 (also used by pebbles), the harness's se
                "the Go runtime and race detector; absence of violations is a statement about the explored cases only")
 
 CHECKS = [
+    {"property_id": "C05", "category": "exploration", "design_ref": "DESIGN.md §5 C05",
+     "technique": "property-based testing (rapid): conflict-introducing edits of generated mergeable worlds, all permutations of the service list (exhaustive for <=4 services)",
+     "text": "a generated mergeable world receives 0..2 conflict edits from a catalogue of 22 (every kind the statement lists) and 0..2 neutral edits; each service SDL stays individually valid; the real merger is run for every permutation of the service list (all n! for n<=4): with a conflict edit every permutation must return an error (no panic, no success), without one acceptance, the merged fact set and the root/Node-field routes must be identical across permutations",
+     "level_note": NOTE_COMMON + "; conflict edits use fresh type names; one order-dependence finding (three-way split) is open and gated"},
     {"property_id": "C02", "category": "exploration", "design_ref": "DESIGN.md §5 C02",
      "technique": "property-based testing (rapid): generated worlds x operations; validity predicates over the real planner's steps and over the requests fake services receive",
      "text": "for generated (world, operation) pairs the steps returned by the real SequentialPlanner and the requests the fake services actually receive (saturated data, so every step fires) must parse and validate with gqlparser's full rule set against the target service's own schema, carry the right operation keyword/name, forward client variable values or declared defaults, cover every field instance the reference executor resolves, and add only id/node helpers that are scrubbed from the response",
@@ -24,7 +28,7 @@ CHECKS = [
      "level_note": NOTE_COMMON + "; schedule control limited to callbacks and the 9 verif hook points"},
 ]
 
-_PENDING = ["C05","C06","C07","C08","C09","C10","C11","C12","C13","C14","C15","C16","C17","C18","C19"]
+_PENDING = ["C06","C07","C08","C09","C10","C11","C12","C13","C14","C15","C16","C17","C18","C19"]
 NOT_APPLICABLE = [{"property_id": p, "reason": "check not built yet (work in progress; the technique applies, see DESIGN.md §5)"} for p in _PENDING]
 
 NOTES = "All checks are property-based tests / fuzz targets in /verif/harness (Go, rapid v1.3.0) run by /verif/check; see DESIGN.md."
